@@ -39,3 +39,11 @@ Print Assumptions C07_threads_every_verdict_is_its_own.
 Theorem C07_reset_before_lock_refuted : t_seen (thrs (Churn.run ResetBeforeLock one_each [0; 0; 1; 0; 0; 0; 1; 1; 1]%nat) 1%nat) = Some 2%nat.
 Proof. exact reset_before_lock_refuted. Qed.
 Print Assumptions C07_reset_before_lock_refuted.
+
+(* the library's process-wide state, as found in the current source, is what the model has: the guard, and one call counter per fake!
+   call site; no pool, table, cache or remembered address survives an injector (generated constants, tools/const_translate.py) *)
+From Inj Require SrcTieLife.
+Theorem C07_library_state_is_what_the_model_has :
+  (SrcTieLife.src_only_guard_static && SrcTieLife.src_macro_statics_are_counters)%bool = true.
+Proof. exact SrcTieLife.src_state_shape. Qed.
+Print Assumptions C07_library_state_is_what_the_model_has.
